@@ -1117,6 +1117,8 @@ class Interp:
                 guard_term = T("getitem", it.term.args[0], T("lv", lid))
                 it = V("range", T("range", self.api.dim_term(Dim(0)), self.api.dim_term(msh[0])), labels=it.labels, extra=(Dim(0), msh[0]))
         iter_term = it.term if it is not None else T("while")
+        if is_for and it is not None and it.kind == "count":
+            iter_term = const(True)  # an unbounded counter: the loop ends by break / return only, like `while True`
 
         def loopvar(state):
             if not is_for:
@@ -1174,6 +1176,35 @@ class Interp:
             head_terms[(where, key)] = hv.term
             self._set_binding(head, where, key, hv)
         alive2, cterm, rets = run(head)
+        # induction variables: a carried integer advanced by a constant every iteration (j = 1; ...; j += 1) holds
+        # init + step * (number of the iteration) at the start of each pass - the value `for j in count(1)` binds
+        indmap = {}
+        if alive2:
+            for where, key in changed:
+                ht = head_terms.get((where, key))
+                bv = self._get_binding(head, where, key)
+                init = self._get_binding(pre, where, key)
+                if ht is None or bv is None or init is None or init.kind != "int" or bv.kind not in ("int",):
+                    continue
+                t_ = bv.term
+                # a path that leaves the loop (break) never starts another iteration: only the continuing arm counts
+                while isinstance(t_, Term) and t_.op == "phi" and len(t_.args) == 3 and isinstance(t_.args[0], Term) and t_.args[0].op == "loopctl" and t_.args[0].args and t_.args[0].args[0] == "break" and ht in (t_.args[1], t_.args[2]):
+                    t_ = t_.args[2] if t_.args[1] == ht else t_.args[1]
+                if isinstance(t_, Term) and t_.op == "add" and len(t_.args) == 2 and ht in t_.args:
+                    stp = t_.args[1] if t_.args[0] == ht else t_.args[0]
+                    if isinstance(stp, Term) and stp.op == "const" and not loops.mentions_head(stp, lid):
+                        indmap[ht] = T("add", init.term, T("smul", stp, T("lv", lid))) if stp != const(1) else T("add", init.term, T("lv", lid))
+        if indmap:
+            for where, key in changed:
+                bv = self._get_binding(head, where, key)
+                ht = head_terms.get((where, key))
+                if bv is None or ht in indmap:
+                    continue
+                nt = subst_term(bv.term, indmap)
+                if nt is not bv.term:
+                    self._set_binding(head, where, key, bv.replace(term=nt))
+            if cterm is not None:
+                cterm = cterm.replace(term=subst_term(cterm.term, indmap))
         if guard_term is not None and alive2:
             for where, key in changed:
                 ht = head_terms.get((where, key))
